@@ -216,3 +216,53 @@ pub async fn op_add_role(sc: Value) -> Value {
     violations.dedup();
     json!({"violations": violations})
 }
+
+/// C10: the same key source given twice must not count twice towards a threshold: targets role with threshold 2 over keys {a, b}, signing with
+/// [root, snapshot, timestamp, a, a]: either the editor refuses, or what it writes must load.
+pub async fn op_dup_key_sources(_sc: Value) -> Value {
+    use crate::roundtrip::K;
+    use tough::editor::RepositoryEditor;
+    use tough::RepositoryLoader;
+    let mk = || K(Ed25519KeyPair::generate_pkcs8(&SystemRandom::new()).unwrap().as_ref().to_vec());
+    let (rk, tk, sk, a, b) = (mk(), mk(), mk(), mk(), mk());
+    let mut table = HashMap::new();
+    for k in [&rk, &tk, &sk, &a, &b] {
+        table.insert(k.id(), k.signer().tuf_key());
+    }
+    let one = |k: &K| RoleKeys { keyids: vec![k.id()], threshold: nz(1), _extra: HashMap::new() };
+    let mut roles = HashMap::new();
+    roles.insert(RoleType::Root, one(&rk));
+    roles.insert(RoleType::Timestamp, one(&tk));
+    roles.insert(RoleType::Snapshot, one(&sk));
+    roles.insert(RoleType::Targets, RoleKeys { keyids: vec![a.id(), b.id()], threshold: nz(2), _extra: HashMap::new() });
+    let root = Root { spec_version: "1.0.0".into(), consistent_snapshot: false, version: nz(1), expires: far(), keys: table, roles, _extra: HashMap::new() };
+    let data = root.canonical_form().unwrap();
+    let sig = rk.signer().sign(&data, &SystemRandom::new()).await.unwrap();
+    let root_bytes = serde_json::to_vec_pretty(&Signed { signed: root, signatures: vec![Signature { keyid: rk.id(), sig: sig.into() }] }).unwrap();
+    let work = tempfile::tempdir().unwrap();
+    let root_path = work.path().join("root.json");
+    std::fs::write(&root_path, &root_bytes).unwrap();
+    let mut violations = vec![];
+    for (what, signing) in [("[a, a]", vec![rk.clone(), tk.clone(), sk.clone(), a.clone(), a.clone()]), ("[a, b, a]", vec![rk.clone(), tk.clone(), sk.clone(), a.clone(), b.clone(), a.clone()])] {
+        let mut ed = RepositoryEditor::new(&root_path).await.unwrap();
+        ed.targets_version(nz(1)).unwrap().targets_expires(far()).unwrap();
+        ed.snapshot_version(nz(1)).snapshot_expires(far()).timestamp_version(nz(1)).timestamp_expires(far());
+        let ks: Vec<Box<dyn KeySource>> = signing.iter().map(|k| Box::new(k.clone()) as Box<dyn KeySource>).collect();
+        match ed.sign(&ks).await {
+            Err(e) => {
+                if what == "[a, b, a]" {
+                    violations.push(format!("signing a threshold-2 role with both of its keys (one given twice) is refused: {e}"));
+                }
+            }
+            Ok(signed) => {
+                let md = work.path().join(format!("md-{}", signing.len()));
+                signed.write(&md).await.unwrap();
+                std::fs::create_dir_all(work.path().join("t")).unwrap();
+                if let Err(e) = RepositoryLoader::new(&root_bytes, dir_url(&md), dir_url(&work.path().join("t"))).load().await {
+                    violations.push(format!("targets role with threshold 2 over keys {{a, b}}, signing keys {what}: the editor reported success but the client refuses the result: {e}"));
+                }
+            }
+        }
+    }
+    json!({"violations": violations})
+}
